@@ -28,7 +28,7 @@ func init() {
 		Assumptions: []string{
 			"only the evaluation half of C06 is decided here; Compile on arbitrary source text is a pure function of a string and is not a simulation target",
 			"fetchers and operators are well-behaved in the statement's sense: they return values or errors, they do not panic",
-			"termination outside event mode is watched by a wall-clock watchdog (20 s per run); a hang must reproduce in a fresh process to count, otherwise the check exits 2",
+			"termination outside event mode is watched by a watchdog (no progress for 20 s of wall time with 15 s of CPU burnt, or for 120 s whatever the CPU use); a hang must reproduce in a fresh process to count, otherwise it is reported as a note, never as a verdict",
 			"sampling: a clean batch is evidence, not proof",
 		},
 		Engines:    []string{"INLINE"},
